@@ -32,6 +32,7 @@ def harness_text(tags, lens=None, conc_addr=False):
     L.append("    p = ref_pad(ref, p);")
     L += ["    " + r for r in ref]
     L.append("    const unsigned R = p;")
+    L.append("    RT_BEGIN();")
     if lens is None:
         L.append("    size_t r = rtosc_amessage(buf, CAP, addr, TAGS, args);")
     else:
@@ -80,6 +81,7 @@ def harness_text(tags, lens=None, conc_addr=False):
     L.append('    CHECK(r3 == R, "C01 arg-value-list constructor returns the OSC length");')
     L.append('    { int same = 1; for(unsigned j = 0; j < CAP; j++) if(j < R && (unsigned char)buf2[j] != ref[j]) same = 0;\n      CHECK(same, "C01 arg-value-list constructor bytes equal the reference encoding"); }')
     L.append("#endif")
+    L.append("    RT_END();")
     L.append('    WITNESS("C01 end");\n}')
     return "\n".join(L) + "\n", cap, nargs
 
